@@ -480,6 +480,23 @@ impl Impl {
                         Err(_) => Some("panic".into()),
                     }
                 }
+                ["toc"] => {
+                    let Some(p) = &st.parsed else { return if built { Some("err:nofile".into()) } else { None } };
+                    // O: the hypothesis of toc_search_complete on the real parsed index — one TOC key per
+                    // block, each the key of the block's last record (validate_toc_consistency restated)
+                    let n = p.entries.len();
+                    let mut ok = p.toc.len() == n.div_ceil(st.rpb);
+                    for (ci, t) in p.toc.iter().enumerate() {
+                        let stop = ((ci + 1) * st.rpb).min(n);
+                        if stop <= ci * st.rpb || p.entries[stop - 1].encoding_key != *t {
+                            ok = false;
+                        }
+                    }
+                    if !ok {
+                        fail(s, "idx-toc-last-key", format!("parsed index ({n} entries, {} per block): TOC of {} keys is not the list of last keys of the blocks", st.rpb, p.toc.len()));
+                    }
+                    Some(join_or(p.toc.iter().map(|t| hex(t)).collect(), ","))
+                }
                 [op, arg] => {
                     let Some(p) = &st.parsed else { return if built { Some("err:nofile".into()) } else { None } };
                     let k = unhex(arg)?;
@@ -629,6 +646,41 @@ impl Impl {
                         }
                         Err(_) => Some("panic".into()),
                     }
+                }
+                ["blocks"] => {
+                    let Some(p) = &st.parsed else { return if built { Some("err:nofile".into()) } else { None } };
+                    // O (root_parse_build on the real code): the parsed blocks are exactly the inserted
+                    // records, blocks in (locale, content) order, records in FileDataID order
+                    let mut got: Vec<(u32, u64, u32, [u8; 16], Option<u64>)> = vec![];
+                    let mut ordered = true;
+                    let mut prev_block: Option<(u32, u64)> = None;
+                    for b in &p.blocks {
+                        let (l, c) = (b.header.locale_flags.value(), b.header.content_flags);
+                        if prev_block.is_some_and(|pb| pb > (l, c)) || b.header.num_records as usize != b.records.len() {
+                            ordered = false;
+                        }
+                        prev_block = Some((l, c));
+                        let mut prev_fd: Option<u32> = None;
+                        for r in &b.records {
+                            let fd = r.file_data_id.get();
+                            if prev_fd.is_some_and(|x| x > fd) {
+                                ordered = false;
+                            }
+                            prev_fd = Some(fd);
+                            got.push((l, c, fd, *r.content_key.as_bytes(), r.name_hash));
+                        }
+                    }
+                    let mut want: Vec<(u32, u64, u32, [u8; 16], Option<u64>)> = st.recs.iter().map(|(fd, ck, nh, loc, cf)| (*loc, *cf, *fd, *ck, *nh)).collect();
+                    got.sort();
+                    want.sort();
+                    if st.consistent_names && (!ordered || got != want) {
+                        let sig = if st.ambiguous { SIG_V2 } else { "root-blocks-as-inserted" };
+                        fail(s, sig, format!("parsed blocks ({} records, ordered={ordered}) are not the {} inserted records in builder order", got.len(), want.len()));
+                    }
+                    Some(join_or(
+                        p.blocks.iter().map(|b| format!("{}:{}:{}:{}", b.header.locale_flags.value(), b.header.content_flags, b.header.num_records, b.records.iter().map(|r| r.file_data_id.get().to_string()).collect::<Vec<_>>().join("+"))).collect(),
+                        ";",
+                    ))
                 }
                 [op, a, loc, cf] => {
                     let Some(p) = &st.parsed else { return if built { Some("err:nofile".into()) } else { None } };
@@ -1019,6 +1071,7 @@ fn case_idx(im: &mut Impl, s: &mut Session, rng: &mut Rng, thorough: bool, ks: u
         im.exec(s, &format!("e {} {} {}", hex(k), sz, off));
     }
     im.exec(s, "build");
+    im.exec(s, "toc");
     for (i, k) in probes(rng, &keys, ks, n <= 400).iter().enumerate() {
         im.exec(s, &format!("{} {}", if i % 5 == 0 { "fa" } else { "f" }, hex(k)));
     }
@@ -1075,6 +1128,7 @@ fn case_root(im: &mut Impl, s: &mut Session, rng: &mut Rng, ver: u32, total: usi
         im.exec(s, &format!("r {fd} {} {} {loc} {cf}", hex(ck), nh.map(|h| h.to_string()).unwrap_or("-".into())));
     }
     im.exec(s, "build");
+    im.exec(s, "blocks");
     for (i, (fd, _, nh, loc, cf, _)) in recs.iter().enumerate() {
         if recs.len() > 300 && i % 5 != 0 { continue; }
         im.exec(s, &format!("id {fd} {loc} {cf}"));
